@@ -16,6 +16,7 @@ import CassisModel.Model.Xmi
 import CassisModel.Model.Json
 import CassisModel.Model.TsXml
 import CassisModel.Model.Comparable
+import CassisModel.Spec.RoundTripCheck
 import CassisModel.Gen.Builtins
 import CassisModel.Spec.BuiltinChecks
 
@@ -680,6 +681,12 @@ def runOp (j : Json) : M Json := do
     | .ok w' =>
       set w'
       pure (jOk (jNat w.handles.size))
+  | "rt.applies" =>
+    -- does the round-trip theorem (C01RoundTrip / C01Applies: `rtAppliesB_sound`) apply to this CAS?
+    let (ci, _) ← getHandle (← liftP (fldNat j "h"))
+    let (_, ts) ← casTsOf ci
+    let w ← get
+    pure (jOk (Json.bool (Xmi.rtAppliesB K ts w.cass.toList ci w.heap)))
   | "cas.new" =>
     let ti ← liftP (fldNat j "ts")
     let _ ← getTs ti
